@@ -16,6 +16,9 @@ func init() {
 		Run:   runC12,
 		Trusted: []string{"net/http sets Request.RemoteAddr to ip:port (SplitHostPort cannot fail there)", "all fabio listeners yield *net.TCPAddr remote addresses", "net.IPNet.Contains implements CIDR membership"},
 		Mutants: []mutant{
+			{Name: "port stripped from X-Forwarded-For elements at the last colon", File: "route/access_rules.go", Old: "\t\t\txip = strings.TrimSpace(xip)\n", New: "\t\t\txip = strings.TrimSpace(xip)\n\t\t\tif i := strings.LastIndexByte(xip, ':'); i > 0 {\n\t\t\t\txip = xip[:i]\n\t\t\t}\n", Expect: "C12.X1"},
+			{Name: "benign: element trimmed with strings.Trim", File: "route/access_rules.go", Old: "\t\t\txip = strings.TrimSpace(xip)\n", New: "\t\t\txip = strings.Trim(xip, \" \\t\")\n", Expect: ""},
+
 			{Name: "drop Authorized test", File: "proxy/http_proxy.go", Old: "if !t.Authorized(r, w, p.AuthSchemes) {", New: "if false {", Expect: "C12.G1"},
 			{Name: "drop access test", File: "proxy/http_proxy.go", Old: "if t.AccessDeniedHTTP(r) {", New: "if false {", Expect: "C12.G1"},
 			{Name: "deny without return", File: "proxy/http_proxy.go", Old: "http.Error(w, \"access denied\", http.StatusForbidden)\n\t\treturn", New: "http.Error(w, \"access denied\", http.StatusForbidden)", Expect: "C12.G1"},
@@ -44,6 +47,7 @@ func runC12(c *Ctx) {
 	runC12G2(c)
 	runC12F(c)
 	runC12A1(c)
+	runC12X1(c)
 }
 
 // lookupResult: v is the result of the dynamic call of a struct field named Lookup.
